@@ -172,18 +172,18 @@ func RunWithLog(lg *rec.Log, sc Scenario, seed int64) []rec.Ev {
 		}
 		return ro.NewObserverWithContext(
 			func(ctx context.Context, v int) {
-				lg.Add(rec.Ev{E: "cbB", O: o, P: rec.PofCtx(ctx), K: "N", V: v})
+				lg.Add(rec.Ev{E: "cbB", O: o, P: rec.PofCtx(ctx), K: "N", V: v, I: rec.CallOfCtx(ctx)})
 				rec.Slow(slow)
 				maybeInside()
 				lg.Add(rec.Ev{E: "cbE", O: o, K: "N"})
 			},
 			func(ctx context.Context, err error) {
-				lg.Add(rec.Ev{E: "cbB", O: o, P: rec.PofCtx(ctx), K: "E", V: causeOf(err)})
+				lg.Add(rec.Ev{E: "cbB", O: o, P: rec.PofCtx(ctx), K: "E", V: causeOf(err), I: rec.CallOfCtx(ctx)})
 				rec.Slow(slow)
 				lg.Add(rec.Ev{E: "cbE", O: o, K: "E"})
 			},
 			func(ctx context.Context) {
-				lg.Add(rec.Ev{E: "cbB", O: o, P: rec.PofCtx(ctx), K: "C", V: 0})
+				lg.Add(rec.Ev{E: "cbB", O: o, P: rec.PofCtx(ctx), K: "C", V: 0, I: rec.CallOfCtx(ctx)})
 				rec.Slow(slow)
 				lg.Add(rec.Ev{E: "cbE", O: o, K: "C"})
 			},
@@ -257,9 +257,11 @@ func RunWithLog(lg *rec.Log, sc Scenario, seed int64) []rec.Ev {
 			r := rand.New(rand.NewSource(seed*1000 + int64(p)))
 			ctx := rec.WithP(base, p)
 			<-start
-			for _, n := range sc.Scripts[p] {
+			pctx := ctx
+			for ci, n := range sc.Scripts[p] {
 				jitter(r)
-				lg.Add(rec.Ev{E: "callB", P: p, K: n.K, V: n.V})
+				ctx := rec.WithCall(pctx, ci)
+				lg.Add(rec.Ev{E: "callB", P: p, K: n.K, V: n.V, I: ci})
 				guarded(p, 0, func() {
 					switch n.K {
 					case "N":
